@@ -21,6 +21,8 @@ import (
 //
 // The driver has two modes and no oracle in either: it concretises a document (a sequence of
 // fragments exported by TLC), puts a show statement at a hole, calls the public API and logs.
+// A case may carry "fmt": "HTML" (default) | "JS" | "CSS" | "JSON": the format of the template file
+// (index.html / .js / .css / .json; imported and rendered files have the same extension).
 //
 //   -mode ctx   case {id, frags}: the document is built with `{{ x }}` appended and
 //               BuildOptions.ExpandedTransformer records the Context the real lexer gave to that
@@ -83,7 +85,10 @@ func init() {
 		"attrinj", `x onmouseover=alert(1)`, "tagbreak", `"><script>alert(1)</script>`, "jsbreak", `';alert(1)//`,
 		"jsbreak2", `";alert(1)//`, "blockbreak", `*/alert(1)/*`, "scriptbreak", `</script><script>alert(1)//`,
 		"cssbreak", `red;}*{x:expression(1)`, "tplbreak", "`+alert(1)+`", "rebreak", `/+alert(1)+/`, "selfclose", `/>`,
-		"startscript", `<script>`, "startcomment", `<!--`, "word", `alert`)
+		"startscript", `<script>`, "startcomment", `<!--`, "word", `alert`,
+		// end tags do not need their `>`: a space or `/` after the name is enough
+		"endscriptsp", `</script x`, "endscriptslash", `</script/`, "endstylesp", `</style x`, "endtitlesp", `</title x`,
+		"endtextareasp", `</textarea x`, "dblescape", `<!--<script `, "endxmpsp", `</xmp x`)
 	add("int", 1, false, "int", 1234567)
 	add("negint", -1, false, "negint", -7)
 	add("float", 1.5, false, "float", 2.25)
@@ -120,6 +125,7 @@ func typeOf(v any) reflect.Type {
 
 type kase struct {
 	ID    int             `json:"id"`
+	Fmt   string          `json:"fmt"` // "HTML" (default), "JS", "CSS", "JSON": the format (extension) of the template file
 	Frags [][]int         `json:"frags"`
 	Hole  int             `json:"hole"`
 	Via   string          `json:"via"`
@@ -138,28 +144,43 @@ func split(k *kase, hole int) (pre, suf string) {
 	return a.String(), b.String()
 }
 
-func files(pre, suf, via string) (scriggo.Files, bool) {
+func ext(format string) string {
+	switch format {
+	case "JS":
+		return ".js"
+	case "CSS":
+		return ".css"
+	case "JSON":
+		return ".json"
+	}
+	return ".html"
+}
+
+// files returns the template files and the name of the main file
+func files(format, pre, suf, via string) (scriggo.Files, string, bool) {
 	fs := scriggo.Files{}
+	e := ext(format)
+	main := "index" + e
 	switch via {
 	case "direct", "":
-		fs["index.html"] = []byte(pre + "{{ x }}" + suf)
+		fs[main] = []byte(pre + "{{ x }}" + suf)
 	case "macro":
-		fs["index.html"] = []byte("{% macro M(v T) %}{{ v }}{% end macro %}" + pre + "{{ M(x) }}" + suf)
+		fs[main] = []byte("{% macro M(v T) %}{{ v }}{% end macro %}" + pre + "{{ M(x) }}" + suf)
 	case "macroin":
-		fs["index.html"] = []byte(pre + "{% macro M(v T) %}{{ v }}{% end macro %}{{ M(x) }}" + suf)
+		fs[main] = []byte(pre + "{% macro M(v T) %}{{ v }}{% end macro %}{{ M(x) }}" + suf)
 	case "import":
-		fs["imp.html"] = []byte("{% macro M(v T) %}{{ v }}{% end macro %}")
-		fs["index.html"] = []byte(`{% import "imp.html" %}` + pre + "{{ M(x) }}" + suf)
+		fs["imp"+e] = []byte("{% macro M(v T) %}{{ v }}{% end macro %}")
+		fs[main] = []byte(`{% import "imp` + e + `" %}` + pre + "{{ M(x) }}" + suf)
 	case "render":
-		fs["part.html"] = []byte("{{ x }}")
-		fs["index.html"] = []byte(pre + `{{ render "part.html" }}` + suf)
+		fs["part"+e] = []byte("{{ x }}")
+		fs[main] = []byte(pre + `{{ render "part` + e + `" }}` + suf)
 	case "rendertxt":
 		fs["part.txt"] = []byte("{{ x }}")
-		fs["index.html"] = []byte(pre + `{{ render "part.txt" }}` + suf)
+		fs[main] = []byte(pre + `{{ render "part.txt" }}` + suf)
 	default:
-		return nil, false
+		return nil, "", false
 	}
-	return fs, true
+	return fs, main, true
 }
 
 // ---- mode ctx -------------------------------------------------------------------------------------
@@ -196,10 +217,10 @@ func contextAt(k *kase, hole int) (ctx, url int) {
 		}
 	}()
 	pre, suf := split(k, hole)
-	fs, _ := files(pre, suf, "direct")
+	fs, main, _ := files(k.Fmt, pre, suf, "direct")
 	x := ""
 	v := &showVisitor{}
-	_, err := scriggo.BuildTemplate(fs, "index.html", &scriggo.BuildOptions{
+	_, err := scriggo.BuildTemplate(fs, main, &scriggo.BuildOptions{
 		Globals: native.Declarations{"x": &x},
 		ExpandedTransformer: func(tree *ast.Tree) error {
 			astutil.Walk(v, tree)
@@ -249,20 +270,20 @@ func render(t *scriggo.Template, typ reflect.Type, v any) (out []byte, oc string
 	return buf.Bytes(), "ok"
 }
 
-func build(fs scriggo.Files, typ reflect.Type) (t *scriggo.Template, err error) {
+func build(fs scriggo.Files, main string, typ reflect.Type) (t *scriggo.Template, err error) {
 	defer func() {
 		if r := recover(); r != nil {
 			t, err = nil, fmt.Errorf("hostpanic: %v", r)
 		}
 	}()
-	return scriggo.BuildTemplate(fs, "index.html", &scriggo.BuildOptions{
+	return scriggo.BuildTemplate(fs, main, &scriggo.BuildOptions{
 		Globals: native.Declarations{"x": reflect.Zero(reflect.PointerTo(typ)).Interface(), "T": typ},
 	})
 }
 
 func confObs(k *kase) []any {
 	pre, suf := split(k, k.Hole)
-	fs, ok := files(pre, suf, k.Via)
+	fs, main, ok := files(k.Fmt, pre, suf, k.Via)
 	if !ok {
 		panic("driver: unknown via " + k.Via)
 	}
@@ -274,7 +295,7 @@ func confObs(k *kase) []any {
 		t, have := built[typ]
 		if _, bad := failed[typ]; !have && !bad {
 			var err error
-			t, err = build(fs, typ)
+			t, err = build(fs, main, typ)
 			if err != nil {
 				if strings.HasPrefix(err.Error(), "hostpanic") {
 					failed[typ] = "hostpanic"
@@ -312,7 +333,7 @@ func confObs(k *kase) []any {
 	if pt == nil {
 		pt = json.RawMessage(`{}`)
 	}
-	return []any{map[string]any{"id": k.ID, "frags": k.Frags, "hole": k.Hole, "via": k.Via, "pt": pt, "outs": outs}}
+	return []any{map[string]any{"id": k.ID, "fmt": k.Fmt, "frags": k.Frags, "hole": k.Hole, "via": k.Via, "pt": pt, "outs": outs}}
 }
 
 func main() {
@@ -322,6 +343,9 @@ func main() {
 			drv.Must(json.Unmarshal(raw, &k))
 			if k.Frags == nil {
 				k.Frags = [][]int{}
+			}
+			if k.Fmt == "" {
+				k.Fmt = "HTML"
 			}
 			switch *mode {
 			case "conf":
